@@ -1,4 +1,5 @@
 import InfluxQL.Lemmas.ScannerPos
+import InfluxQL.Lemmas.Ring
 /-!
 # C05 — the lexer partitions its input and reports exact positions
 
@@ -151,6 +152,76 @@ theorem nul_counterexample :
     let r0 := Cursor.ofRunes [Char.ofNat 0, 'y']
     (scan r0).1.tok = .EOF ∧ (scan r0).2.rest.length = 2 := by
   decide
+
+/-! ## The push-back rings (`reader.buf` / `reader.n`, `bufScanner.buf` / `bufScanner.n`)
+
+`Model/Ring.lean` transcribes the two 3-slot rings of scanner.go (`read`/`unread`/`curr`,
+`scanFunc`/`Unscan`/`curr`; slot count and function bodies regenerated / pinned by
+`extract/gen_ring.go`), with the depth assertion of the `verif` build tag as `currChecked`. -/
+
+/-- The slot counts read from the source are the ones the model is written for. -/
+theorem gen_ring_slots : ringSlots = 3 ∧ tokenSlots = 3 := by decide
+
+/-- **C05 (rings = unbounded history).** For any element type, any source, any sequence of
+`read(next)` / `unread` / `curr` operations — each `read` with its own producer, as
+`bufScanner.scanFunc` is called with `Scan` or `ScanRegex` — that the depth assertion lets through,
+the 3-slot ring returns exactly the elements an unbounded history of everything delivered would
+return. Push-back therefore never shows a stale or overwritten slot: no rune and no token is
+delivered twice or lost by the rings. -/
+theorem ring_is_history {α σ : Type} (z : α) (s : σ) (ops : List (Ring.Op α σ)) (outs : List α)
+    (r' : Ring.Ring α σ) (hrun : (Ring.Ring.init z s).run ops = some (outs, r')) :
+    (Ring.Hist.run z ops (Ring.Hist.init z s)).1 = outs :=
+  (Ring.ring_refines_hist z ops _ _ (Ring.sim_init z s) outs r' hrun).1
+
+/-- **C05 (when the assertion passes).** The checked ring gets through an operation sequence
+exactly when at most two elements are pushed back whenever `curr()` runs (`depthOK`): the hook
+in the implementation panics on precisely the sequences outside this theorem. -/
+theorem ring_run_iff_depth {α σ : Type} (z : α) (s : σ) (ops : List (Ring.Op α σ)) :
+    ((Ring.Ring.init z s).run ops).isSome = Ring.depthOK ops 0 :=
+  Ring.ring_run_isSome ops (Ring.Ring.init z s)
+
+/-- **C05 (the rune reader delivers the stamped stream).** The `j`-th rune `reader.read()` takes
+from the underlying reader — with CR/CRLF folding, the position stamped before the rune, the column
+frozen after the first NUL/EOF — is the `j`-th entry of the stream the pure cursor of the scanner
+model walks over, for every text and every `j` (beyond the end: NUL at the final position). -/
+theorem reader_delivers_stream (text : List Char) (j : Nat) :
+    Ring.nthItem Ring.readerNext (Ring.src0 text) j = Ring.streamAt text j :=
+  Ring.reader_items_streamAt text j
+
+/-- **C05 (the reader's ring is pure look-ahead).** For every text and every sequence of
+`read` / `unread` / `curr` calls that never pushes back more than was read and passes the depth
+assertion, the reader with its 3-slot ring, position counters and sticky EOF returns exactly what
+the look-ahead reading of the scanner model returns: `read` = the rune at the logical position
+(then advance), `unread` = step back, `curr` = the rune before the position (the zero slot at the
+start). This is what justifies modelling `read`/`unread` pairs as peeking. -/
+theorem reader_ring_is_lookahead (text : List Char) (ops : List Ring.ROp)
+    (outs : List (Char × Pos)) (r' : Ring.Ring (Char × Pos) Ring.RSrc)
+    (hb : Ring.Balanced ops 0 = true)
+    (hrun : (Ring.readerInit text).run (ops.map Ring.ROp.toOp) = some (outs, r')) :
+    outs = Ring.idxRun text ops 0 := by
+  have h1 := (Ring.ring_refines_hist Ring.zeroSlot (ops.map Ring.ROp.toOp) _ _
+    (Ring.sim_init Ring.zeroSlot (Ring.src0 text)) outs r' hrun).1
+  rw [← h1]
+  exact Ring.hist_is_lookahead text ops _ 0 (Ring.win_init text) hb
+
+/-- The depth bound is exact: with three runes pushed back the unchecked `curr()` of the code
+returns the *last* rune read (slot `i`) where the history says the zero slot — the reason the hook
+asserts `n < len(buf)`. -/
+theorem ring_depth3_counterexample :
+    let ops : List Ring.ROp := [.read, .read, .read, .unread, .unread, .unread]
+    ∃ (outs : List (Char × Pos)) (r : Ring.Ring (Char × Pos) Ring.RSrc),
+      (Ring.readerInit ['a', 'b', 'c']).run (ops.map Ring.ROp.toOp) = some (outs, r) ∧
+      r.curr = ('c', ⟨0, 2⟩) ∧ r.currChecked = none ∧
+      Ring.idxRun ['a', 'b', 'c'] (ops ++ [.curr]) 0 =
+        [('a', ⟨0, 0⟩), ('b', ⟨0, 1⟩), ('c', ⟨0, 2⟩), Ring.zeroSlot] := by
+  refine ⟨_, _, rfl, ?_, ?_, ?_⟩ <;> decide
+
+-- non-vacuity: a CRLF text read with look-ahead two deep (read read unread unread read curr)
+example : ∃ outs r', Ring.Balanced [.read, .read, .unread, .unread, .read, .curr] 0 = true ∧
+    (Ring.readerInit ['x', '\r', '\n', 'y']).run
+      ([Ring.ROp.read, .read, .unread, .unread, .read, .curr].map Ring.ROp.toOp) = some (outs, r') ∧
+    outs = [('x', ⟨0, 0⟩), ('\n', ⟨0, 1⟩), ('x', ⟨0, 0⟩), ('x', ⟨0, 0⟩)] := by
+  refine ⟨_, _, by decide, rfl, by decide⟩
 
 -- non-vacuity of the hypotheses used above
 example : (scan (Cursor.ofRunes "SELECT 1".toList)).1.tok.isStringFamily = false := by decide
